@@ -165,6 +165,15 @@ func (f *fieldSelectionMergingVisitor) EnterField(ref int) {
 				}
 			}
 
+			// fields that can be selected on one and the same object must be the same field with the same
+			// arguments, whatever their type (the leaf fields below are compared by FieldsAreEqualFlat)
+			if f.potentiallySameObject(f.nonScalarRequirements[i].enclosingTypeDefinition, f.EnclosingTypeDefinition) &&
+				(!bytes.Equal(f.operation.FieldNameBytes(f.nonScalarRequirements[i].fieldRef), fieldName) ||
+					!f.operation.ArgumentSetsAreEquals(f.operation.FieldArguments(f.nonScalarRequirements[i].fieldRef), f.operation.FieldArguments(ref))) {
+				f.StopWithExternalErr(operationreport.ErrDifferingFieldsOnPotentiallySameType(objectName))
+				return
+			}
+
 			if fieldDefinitionTypeNode.Kind != f.nonScalarRequirements[i].fieldTypeDefinitionNode.Kind {
 				hasDifferentKindInRequirements = true
 			}
